@@ -612,6 +612,28 @@ def run(tier, seed):
                 chk.seen(("interleaved", A_[0], B_[0]))
         chk.evals += npairs
         chk.count("interleaved-pairs", npairs)
+        # ... with a BURST on the other thread: between every two lines of one valid authentication, hundreds of complete calls for RP IDs / origins / keys never seen
+        # before (more than any bounded cache holds: 300, or the largest count the changed source newly mentions plus 90) - evictions and clear()s then fall INTO the window
+        from harness import srcdict as _sd2
+        burst = min(1300, max([300] + [t for t in _sd2.thresholds() if t <= 1200]) + 90)
+        s_b = authcat.Scn("ES256-P256"); s_b.challenge = b"burst-window-challenge"
+        pol_b, a_b = s_b.build()
+        rec_b = a_b.as_record()
+        single = impl.verify_auth(pol_b, rec_b)
+        tenant = [0]
+
+        def burst_calls():
+            for _ in range(burst):
+                tenant[0] += 1
+                p2 = impl.AuthPolicy(pol_b.challenge, f"tenant-{tenant[0]}.example", f"https://tenant-{tenant[0]}.example", pol_b.pubkey, pol_b.count, False)
+                impl.verify_auth(p2, rec_b)
+            return "burst"
+        oa, obs, n = fw.interleaved(lambda: impl.verify_auth(pol_b, rec_b), burst_calls, max_events=120)
+        chk.evals += burst * n
+        if oa != single:
+            chk.violation(f"a valid authentication gives {oa[:60]} instead of {single[:60]} when, between two of its lines, another thread completes {burst} calls for RP IDs never seen before",
+                          "interleaved burst-of-new-tenants", {"schedule": f"between every two consecutive lines of the call inside the library another thread runs {burst} complete verify_authentication_response calls, each with a new expected_rp_id / origin",
+                                                               "switch_points": n, "outcome": oa, "single_threaded": single})
         # the RP's expectation objects (one list of origins, one list of algorithms, one mapping of roots) SHARED by the requests of two threads, switch points at every
         # bytecode instruction (sys.monitoring): a call that touches them - even to put things back a moment later - shows in the other thread's outcome
         nshared = 0
